@@ -1,27 +1,39 @@
 """C07 — observe client: notifications in freshness order, termination signalled once.
 
-Correspondence (model ≈ code), two levels:
+Correspondence (model ≈ code):
   (a) the real `aiocoap.protocol.Request` fed through a real `aiocoap.pipe.Pipe`
       (harness/c07_pipe.py; `time` as seen from aiocoap.protocol is a harness clock) vs the Lean
       runner `Aiocoap.Observe.step`: per event, what was handed to the application (response
-      future, callbacks, errbacks, `_stop_interest`) and whether the pipe has ended;
+      future, callbacks, errbacks, `_stop_interest`) and whether the pipe has ended; application
+      calls are events too: observation.cancel() between events and from inside the callback that
+      hands over a message, an errback that cancels, response.cancel();
   (b) the real UDP stack (netsim + virtual clock, harness/c07_stack.py): an observing request,
-      piggy-backed / separate first response, CON and NON notifications in any order, transport
-      errors, shutdown; vs the Lean message-layer model composed with the runner
-      (`Aiocoap.Observe.jointStep`): datagrams (ACK / RST), pipe events and deliveries.
+      piggy-backed / separate first response, CON and NON notifications in any order, error
+      responses carrying an Observe option, transport errors, shutdown, response.cancel(); vs the
+      Lean message-layer model composed with the runner (`Aiocoap.Observe.jointStep`): datagrams
+      (ACK / RST), pipe events and deliveries;
   (i) the real `ClientObservation._Iterator` (through `ClientObservation.__aiter__` / `callback` /
       `error`, a consumer task per `__anext__`) driven operation by operation — push, push_err,
       `__anext__` starting, the loop resuming the consumer, the consumer task being cancelled — vs
       the Lean iterator model with future identities (`Aiocoap.Observe.Iter.step`, `openOps`):
-      outputs and state (slot content, error kept aside, what the consumer is suspended on) after
-      every operation (harness/c07_iter.py).
+      outputs and state after every operation (harness/c07_iter.py);
+  (d) block-wise notifications through `Context.request()` (default `BlockwiseRequest`) over a
+      token interface of the harness that plays a server with a current representation
+      (harness/c07_bw.py): what `BlockwiseRequest._run_observation` is given by the lower
+      iteration, what becomes of each Block2 fetch (fetched / failed / network error) and what it
+      tells the application's observation, vs the Lean model of that loop
+      (`Aiocoap.Observe.Upper.step`); the application's view is judged by the oracle;
   (c) oracle only: the application's view through `Context.request()` with the default
       BlockwiseRequest and with handle_blockwise=False over a token interface of the harness
       (harness/c07_app.py): callbacks and async iteration, consumers that are busy or start late,
-      transport failure of the initial request.
-Oracle: RFC 7641 §3.4 and the termination clauses written from the RFC / the property over the
-observed deliveries (c07_pipe.oracle_history / oracle_iterator, c07_stack.oracle_stack,
-c07_iter.oracle_iter, c07_app.oracle_app).
+      transport failure of the initial request, cancels from inside callback / errback,
+      response.cancel().
+Oracle: RFC 7641 §3.4 / §4.2 and the termination clauses written from the RFC / the property over
+the observed deliveries (c07_pipe.oracle_history / oracle_iterator, c07_stack.oracle_stack,
+c07_iter.oracle_iter, c07_app.oracle_app, c07_bw.oracle).  A notification is a 2.xx response
+carrying an Observe option; "a response without Observe option (as every non-2.xx one is)" is
+every other response.  Wherever an error is handed to the application it must be an exception
+INSTANCE (derived from aiocoap's error.Error where aiocoap creates it).
 """
 import asyncio
 import itertools
@@ -38,26 +50,40 @@ RULE = ("(a) exhaustive: every sequence (with repetitions) of 5-6 notifications 
         "response over value sets straddling 0 / 2^23 / 2^24-1 / 2^24; every pair (v1, v1+d) for d "
         "around 0, +-2^23 with gaps 0, 128 s -1/0/+1 tick; every 3-step history of (stale|dup|fresh) x "
         "gap in {0,1,R-1,R,R+1,2R+1}; every position x kind of terminating event (2.xx/4.xx/5.xx "
-        "without Observe, last or not, last notification, six exception kinds) followed by more "
-        "notifications, each with attentive / lazy / busy / late async-iterator consumers; application "
-        "cancels at every position, in particular observation.cancel() before the first event followed "
-        "by every kind of first event; then random histories from the seed. "
+        "without Observe, last or not, last notification, 4.xx/5.xx WITH Observe fresher/older/equal, six "
+        "exception kinds) followed by more notifications, each with attentive / lazy / busy / late "
+        "async-iterator consumers; every code-class boundary (2.00, 2.01, 2.05, 2.31, 3.00, 4.00, 4.04, 5.00, "
+        "5.31) x (no Observe | fresher | older | duplicate | 0) x (marked last or not) at every position; "
+        "application cancels at every position, in particular observation.cancel() before the first event "
+        "followed by every kind of first event, from inside the callback at every kind of message, from "
+        "inside the errback at every way an observation ends, and response.cancel() before the first "
+        "event with every consumer; then random histories from the seed. "
         "(i) every sequence of up to 5 (thorough: 7) iterator operations over {push, push_err(cancelled), "
         "push_err(network error), __anext__, resume, cancel consumer}, every such sequence of up to 4 "
         "after __aiter__ on an observation with every kind of past, then random longer ones. "
         "(b) scripted observations over the real UDP stack, with and without a busy consumer, "
-        "observation.cancel() before the first response. (c) application-level scenarios through "
-        "Context.request() (default BlockwiseRequest and handle_blockwise=False). A case is non-trivial "
-        "when at least one notification was handed over and one was suppressed or the observation ended.")
+        "observation.cancel() before the first response, error responses with Observe option, response.cancel() "
+        "with a consumer, errbacks that cancel. (d) block-wise notifications: every misbehaviour of a block reply "
+        "(ETag change, short block, wrong number, error reply with/without Block2, dropped Block2 option, network "
+        "error) at block 1 and 2 x what follows (more notifications, final response, transport failure, nothing); "
+        "notifications overtaking a fetch, state changes whose notification is lost, older notifications arriving "
+        "late; then random server scripts. (c) application-level scenarios through Context.request() (default "
+        "BlockwiseRequest and handle_blockwise=False). A case is non-trivial when at least one notification was "
+        "handed over and one was suppressed or the observation ended (level d: and a fetch failed or the loop ended).")
 TRUSTED = ["harness clock standing in for `time` inside aiocoap.protocol; wrapper on the "
            "instance's _stop_interest (harness/c07_pipe.py)",
            "read-only peeks at _Iterator._future / _deferred_error and Task._fut_waiter for the state part of "
-           "the level (i) comparison (harness/c07_iter.py); fake token interface of level (c) (harness/c07_app.py)",
+           "the level (i) comparison (harness/c07_iter.py); fake token interface of levels (c)/(d) (harness/c07_app.py, c07_bw.py)",
+           "level (d): for the time of one run, a wrapper on the class attribute BlockwiseRequest._complete_by_requesting_block2 "
+           "(records which item the loop fetches and the outcome, calls the original), a wrapper on the Context instance's "
+           "request() and an extra errback on the lower request's observation (harness/c07_bw.py)",
            "virtual-clock event loop and fake-socket UDP stack of the harness (vloop.py, netsim.py)"]
 ASSUMPTIONS = ["asyncio semantics the iterator model relies on (await on a done future does not suspend; "
                "Task.cancel() cancels the awaited future if pending, else throws at the wake-up) are "
                "exercised by the level (i) correspondence, not proved",
-               "BlockwiseRequest._run_observation (consumer of the inner iterator) is not modelled: oracle only",
+               "level (d): the Block2 fetch itself (_complete_by_requesting_block2) is C05's; here only its outcome per "
+               "notification enters the model; a complete response without Block2 to a follow-up block request (4.04, bare "
+               "2.05) is handed over as such and does not end the observation (stated allowance of the oracle)",
                "time.time() does not go backwards by more than the model's Nat ticks can express (harness clock is monotone)"]
 
 M23, M24 = 1 << 23, 1 << 24
